@@ -439,6 +439,16 @@ def run_check(prop: str, tier: str) -> int:
                             # violation, flagged as not bit-reproducible
                             ok, reproducible = True, "intermittent"
                 if not ok:
+                    # e.g. state keyed by id(): whether an address is reused
+                    # depends on the allocator's history, which a fresh
+                    # interpreter does not share. Seen in the worker and
+                    # (again now) in an isolated child: a violation, flagged
+                    # as not bit-reproducible by the replay command.
+                    again = iso.execute(small)
+                    if again.get("violation") and \
+                            again["violation"]["clause"] == clause:
+                        ok, reproducible = True, "intermittent"
+                if not ok:
                     harness_errors.append(
                         (k, f"replay did not reproduce (rc={rc}): "
                             f"{out[-800:]}"))
